@@ -721,6 +721,18 @@ func (e *Engine) evalCall(x *Expr, se *SpecEnv) Val {
 			out.L[li] = Select(arr, k)
 		}
 		return out
+	case "loglenbefore":
+		// loglenbefore(f, i): how many calls of f had been logged when action i was performed
+		it := e.evalSpec(x.Args[1], se).L[0]
+		iv, okc := constInt(it.S)
+		log := se.st.actionLog
+		if se.cur != nil {
+			log = se.cur.actionLog
+		}
+		if !okc || iv < 0 || iv >= len(log) {
+			return mkInt(IntLit(-1))
+		}
+		return mkInt(e.logLen(log[iv].Pre, e.logKey(x.Args[0].Name, se)))
 	case "logiter":
 		// logiter(f, loop, k): which element the range loop `loop` of this function was visiting at the k-th logged call of f
 		name := e.logKey(x.Args[0].Name, se)
